@@ -46,6 +46,18 @@ CLAIMED = {
           "Machine-checked proof of well-formedness/completeness for all inputs; model tied exactly (plans equal incl. annealing trajectory); Synthesizer-level check that a main column given by name or index (0 included) is honoured.",
           "CPython set iteration order replica validated, not proved (theorems hold for every order). Determinism = the model is a function; checked on the implementation by re-running.",
           "DESIGN.md §5 C13"),
+  "C07": ("Lean 4 theorems the schema/domain clauses are assembled from (well-formed plans cover every column exactly once, stitch columns = union, nulls only from the null range, strings are value-map entries or prefix*index, one row per unit) + exact correspondence of the plan, stitch and microdata models + Synthesizer.sample() run on generated tables of every type under every strategy with schema/dtype/domain checks",
+          "Proof of the pieces for all inputs; the composition (pandas astype, scikit-learn scaler/RFECV, orchestration) is exercised end to end on every run: 1-7 columns, 1-400 rows, all kinds, nulls, with/without ids, all strategies incl. main column 0 and ML target. Totality of the whole pipeline is not a Lean theorem (partial).",
+          "pandas/scikit-learn outside the model. Known finding: RecursionError for float values closer than ~2^-900 of the column range.",
+          "DESIGN.md §5 C07"),
+  "C08": ("Lean 4 theorems: released count of N rows within 17*sd+1/2 of N (two layers, deviate bound proved over the reals), a group of N >= lt+(gap+8.5)sd always passes, noise off => hard floor only, rescaling loses at most one unit, one row per unit, patch keeps the left count + bit-exact correspondence of trees/harvest + len(sample()) checked against the bound on generated tables",
+          "Machine-checked proof of each link of the row-count chain; the chain itself (root true count = N, harvest total = root count or one less) is evaluated on every real table (single / none / default clustering, noise on and off, outliers, nulls, 1-400 rows).",
+          "Composition into one theorem about sample() not done (partial). Double-precision libm not covered by the real-number bound.",
+          "DESIGN.md §5 C08"),
+  "C09": ("Lean 4 theorems: a singular node releases its exact values, a draw from a single-point range is that point for every RNG state, rescaling by ratio 1 is the identity, the null range decodes to null + exact correspondence of microdata cells and trees + multiset equality of sample() and input on generated well-populated tables (every type, scales 1e-9..1e9, neighbours at the 10th-12th significant digit, dates, second-resolution timestamps, nulls)",
+          "Proof of the model-level facts; exact reproduction itself is checked on every generated well-populated table; numeric decoding rests on double-precision behaviour of scaler/round, pinned cell-exactly by S-micro.",
+          "T09.a (all leaves singular under the population hypothesis) not a Lean theorem (partial).",
+          "DESIGN.md §5 C09"),
 }
 NOT_YET = "check not built yet in this work session (model/theorems in progress); see DESIGN.md §5 for the plan"
 
